@@ -4,6 +4,7 @@ box type, volume, heights), PbcVectors (mode L vectors), PbcVolume, TracePbc (op
 direction).  Driver: harness/drivers/pbc.cc (Topology::setBox / BCShortestConnection /
 getDist / BoxVolume / ShortestBoxSize / getBoxType)."""
 import json
+import os
 import random
 import re
 import vlib
@@ -88,6 +89,10 @@ def _judge(ctx, recs, tag):
     vlib.tlc_must_hold(res, "TracePbc (well-formed trace, certified image window)")
     ctx.add_tlc("TracePbc(%s)" % tag, res)
     out = {v["id"]: v for v in res.records}
+    try:
+        os.unlink(path)
+    except OSError:
+        pass
     if len(out) != len(recs):
         raise vlib.InfraError("TracePbc returned %d verdicts for %d records" % (len(out), len(recs)))
     return out
